@@ -95,6 +95,23 @@ class SStr(Sym):
         return 'SStr(%s)' % self.z
 
 
+class SText(Sym):
+    """
+    A string built by concatenation / %-formatting of concrete pieces and
+    symbolic values, kept as a structure: parts is a list of str | SStr |
+    ('fmt', format string, args tuple).  Only built when a contract asks for
+    it (Interp.structured_text), so that a postcondition can read the shape.
+    """
+    __slots__ = ('parts',)
+    pytype = str
+
+    def __init__(self, parts):
+        self.parts = list(parts)
+
+    def __repr__(self):
+        return 'SText(%r)' % (self.parts,)
+
+
 class SOpaque(Sym):
     """A value about which nothing is known except identity (an Obj const)."""
     __slots__ = ('z', 'label')
